@@ -1754,3 +1754,34 @@ def upgrade_header_consistency_rule(A, fl, rule):
                                                                  sorted(keys_sock)),
             behaviour="GET transport=websocket&sid=<polling session> with 'Upgrade: websocket' "
                       "but without 'Connection: upgrade' is served as a long-poll")
+
+
+def upgrade_refusal_harmless_rule(A, fl, rule):
+    """C06.3: an upgrade request that is refused with OSError (session already upgraded) or
+    fails with an I/O error must not end the session: the request error branch that closes
+    the session handles protocol errors (EngineIOError) only."""
+    fi, srv, ps = request_paths(A, fl)
+    name = fl['name']
+    n = 0
+    for p in ps:
+        v = PV(p, depth=0)
+        c = v.calls(SINKS['get'], depth=0)
+        if not c:
+            continue
+        node = v.ev[c[0][0]].node
+        ex = [i for i, e in enumerate(v.ev) if e.kind == 'exc' and e.node is node and
+              e.cls == 'OSError']
+        if not ex:
+            continue
+        n += 1
+        after = [x for i, x in v.effects(0) if i > ex[0]]
+        bad = [x for x in after if '.close(' in x or 'self.sockets.pop(' in x or
+               '.disconnect(' in x]
+        dels = [e for i, e in enumerate(v.ev) if i > ex[0] and e.kind == 'del']
+        A.check(not bad and not dels, rule + '.refusal-harmless',
+                '%s: an upgrade request that is refused (already upgraded) or hits an I/O error '
+                'does not close or remove the session' % name, A.site(fi, node),
+                key='%s-upgrade-refusal-closes' % name, detail=v.describe(70),
+                behaviour='a second upgrade attempt tears down the established WebSocket '
+                          'session (disconnect event, CLOSE, sid removed)')
+    A.floor(rule, '%s GET paths where the upgrade raises OSError' % name, n, 1)
